@@ -6,6 +6,7 @@ import (
 	"fmt"
 	"go/types"
 	"math/big"
+	"sort"
 	"strings"
 
 	"golang.org/x/tools/go/ssa"
@@ -807,6 +808,11 @@ func (x *Exec) specIndex(env *SpecEnv, n *EIndex) TV {
 				it = t
 			} else if sv, ok := i.V.(*SpecVal); ok {
 				it = sv.T
+			} else if pv, ok := i.V.(*PtrV); ok {
+				it = pv.Ref
+			}
+			if it == nil {
+				specFail("unsupported index value %T", i.V)
 			}
 			r := Select(v.T, it)
 			if r.Sort.K == KBool {
@@ -1055,6 +1061,28 @@ func (x *Exec) specCall(env *SpecEnv, n *ECall) TV {
 			}
 		}
 		return mkSpecBool(TFalse)
+	case "implements": // implements(ifaceValue, "interface type"): the comma-ok assertion to that interface succeeds
+		a := arg(0)
+		iv, ok := a.V.(*IfaceV)
+		if !ok {
+			specFail("implements() needs an interface value")
+		}
+		ts, ok := n.Args[1].(*EString)
+		if !ok {
+			specFail("implements(x, \"type\")")
+		}
+		tk := ts.Val
+		if !strings.Contains(tk, "{") {
+			t := x.P.LookupType(env.typesPkg(), tk)
+			if t == nil {
+				specFail("unknown type %s", tk)
+			}
+			if a.T != nil && implementsStatically(a.T, t) {
+				return mkSpecBool(Neq(iv.Tag, IntConstI(0)))
+			}
+			tk = typeKey(t)
+		}
+		return mkSpecBool(And(Neq(iv.Tag, IntConstI(0)), x.D.Fun(smtName("implements:"+tk), SBool, iv.Tag)))
 	case "unbox": // unbox(iface, type(T))
 		a := arg(0)
 		iv := a.V.(*IfaceV)
@@ -1107,6 +1135,17 @@ func (x *Exec) specCall(env *SpecEnv, n *ECall) TV {
 	// spec functions
 	if sf, ok := x.CS.Specs[name]; ok {
 		return x.applySpecFunc(env, sf, n.Args)
+	}
+	// real functions with a functional contract: f(args) or f$res(args)
+	if env.pkg != nil {
+		base, res := splitRes(name)
+		if fn, ok := env.pkg.Members[base].(*ssa.Function); ok {
+			var args []TV
+			for i := range n.Args {
+				args = append(args, arg(i))
+			}
+			return x.specFunctionalCall(env, fn, res, args)
+		}
 	}
 	specFail("unknown function %q in specification", name)
 	return TV{}
@@ -1217,8 +1256,28 @@ func (x *Exec) flattenTV(tv TV, tname string) []*Term {
 }
 
 func (x *Exec) specMethodCall(env *SpecEnv, sel *ESel, args []Expr) TV {
+	mname, res := splitRes(sel.Sel)
+	// pkg.Func(args) for a function with a functional contract in an imported package
+	if id, ok := sel.X.(*EIdent); ok && env.typesPkg() != nil {
+		_, bound := env.names[id.Name]
+		_, lz := env.lazy[id.Name]
+		if !bound && !lz {
+			for _, imp := range env.typesPkg().Imports() {
+				if imp.Name() == id.Name {
+					if sp := x.P.Package(imp.Path()); sp != nil {
+						if fn, ok := sp.Members[mname].(*ssa.Function); ok {
+							var as []TV
+							for _, a := range args {
+								as = append(as, x.evalSpec(env, a))
+							}
+							return x.specFunctionalCall(env, fn, res, as)
+						}
+					}
+				}
+			}
+		}
+	}
 	recv := x.evalSpec(env, sel.X)
-	st := env.state()
 	switch v := recv.V.(type) {
 	case *IfaceV:
 		it, ok := recv.T.Underlying().(*types.Interface)
@@ -1227,38 +1286,115 @@ func (x *Exec) specMethodCall(env *SpecEnv, sel *ESel, args []Expr) TV {
 		}
 		var m *types.Func
 		for i := 0; i < it.NumMethods(); i++ {
-			if it.Method(i).Name() == sel.Sel {
+			if it.Method(i).Name() == mname {
 				m = it.Method(i)
 			}
 		}
+		key := typeKey(recv.T) + "." + mname
+		var sig *types.Signature
 		if m == nil {
-			specFail("no method %s on %s", sel.Sel, recv.T)
+			// a method of the dynamic type that the static interface does not list: allowed when it is
+			// declared pure on some other interface (pureiface) or for every receiver (pureany)
+			sig = x.pureSigByName(env, mname)
+			if sig == nil {
+				specFail("no method %s on %s (and no pureiface/pureany declaration for it)", mname, recv.T)
+			}
+		} else {
+			if !x.CS.IsPure(typeKey(recv.T), mname) {
+				specFail("interface method %s is not declared pure (pureiface)", key)
+			}
+			sig = m.Type().(*types.Signature)
 		}
-		key := typeKey(recv.T) + "." + sel.Sel
-		if !x.CS.PureIface[key] {
-			specFail("interface method %s is not declared pure (pureiface)", key)
-		}
-		sig := m.Type().(*types.Signature)
 		ins := []*Term{v.Tag, v.Ref}
+		if len(args) != sig.Params().Len() {
+			specFail("method %s: expected %d arguments", mname, sig.Params().Len())
+		}
 		for i, a := range args {
 			av := x.coerceTo(x.evalSpec(env, a), sig.Params().At(i).Type())
 			ins = append(ins, x.flatten(sig.Params().At(i).Type(), av.V)...)
 		}
+		idx := 0
+		suffix := ""
 		if sig.Results().Len() != 1 {
-			specFail("pure interface method %s must have one result in specs", key)
+			if res == "" {
+				specFail("interface method %s has %d results: select one with $<index>", key, sig.Results().Len())
+			}
+			fmt.Sscanf(res, "%d", &idx)
+			suffix = fmt.Sprintf("#%d", idx)
 		}
-		rt := sig.Results().At(0).Type()
+		rt := sig.Results().At(idx).Type()
 		cs := x.compsOf(rt)
 		var ts []*Term
 		for _, cp := range cs {
-			ts = append(ts, x.D.Fun(smtName("im:"+key+cp.suffix), cp.sort, ins...))
+			app := x.D.Fun(smtName(ifaceUFName(mname, sigString(sig))+suffix+cp.suffix), cp.sort, ins...)
+			ts = append(ts, app)
+			if len(args) == 0 {
+				x.addInput(ModelVar{"call:" + mname + suffix + cp.suffix + "@" + v.Ref.S, app.S, cp.sort.String()})
+			}
 		}
 		val, _ := x.unflatten(rt, ts)
 		return TV{val, rt}
 	case *PtrV:
-		// pure concrete getters with contracts "ensures result == expr" are not expanded; allow common big.Int queries
-		_ = st
+		if fn := x.findMethod(v.Elem, mname); fn != nil {
+			var as []TV
+			if fn.Signature.Recv() != nil {
+				if _, isPtr := fn.Signature.Recv().Type().(*types.Pointer); isPtr {
+					as = append(as, recv)
+				} else {
+					as = append(as, TV{x.Load(env.state(), v), v.Elem})
+				}
+			}
+			for _, a := range args {
+				as = append(as, x.evalSpec(env, a))
+			}
+			return x.specFunctionalCall(env, fn, res, as)
+		}
+	default:
+		if recv.T != nil {
+			if fn := x.findMethod(recv.T, mname); fn != nil && fn.Signature.Recv() != nil {
+				if _, isPtr := fn.Signature.Recv().Type().(*types.Pointer); !isPtr {
+					as := []TV{recv}
+					for _, a := range args {
+						as = append(as, x.evalSpec(env, a))
+					}
+					return x.specFunctionalCall(env, fn, res, as)
+				}
+			}
+		}
 	}
 	specFail("method call %s in specification not supported on %T", sel.Sel, recv.V)
 	return TV{}
+}
+
+// pureSigByName finds the signature of a method declared pure on some interface or by pureany.
+func (x *Exec) pureSigByName(env *SpecEnv, mname string) *types.Signature {
+	if rtName, ok := x.CS.PureAny[mname]; ok {
+		rt := x.P.LookupType(env.typesPkg(), rtName)
+		if rt == nil {
+			specFail("pureany %s: unknown result type %s", mname, rtName)
+		}
+		return types.NewSignatureType(nil, nil, nil, nil, types.NewTuple(types.NewVar(0, nil, "", rt)), false)
+	}
+	var keys []string
+	for k := range x.CS.PureIface {
+		if strings.HasSuffix(k, "."+mname) {
+			keys = append(keys, k)
+		}
+	}
+	sort.Strings(keys)
+	for _, k := range keys {
+		iname := strings.TrimSuffix(k, "."+mname)
+		t := x.P.LookupType(env.typesPkg(), iname)
+		if t == nil {
+			continue
+		}
+		if it, ok := t.Underlying().(*types.Interface); ok {
+			for i := 0; i < it.NumMethods(); i++ {
+				if it.Method(i).Name() == mname {
+					return it.Method(i).Type().(*types.Signature)
+				}
+			}
+		}
+	}
+	return nil
 }
